@@ -93,10 +93,12 @@ type task struct {
 	rsInt  int
 
 	// scheduler-owned
-	tape    []int
-	tapePos int
-	done    bool
-	isSink  bool
+	pendingGet *hooks.Printer // a get request whose pool decision is taken when the task is next resumed
+	hasPending bool
+	tape       []int
+	tapePos    int
+	done       bool
+	isSink     bool
 }
 
 type poolStats struct {
@@ -310,7 +312,6 @@ func (s *sim) handleGet(t *task, fresh *hooks.Printer) {
 	}
 	s.mix(1, t.id, rec.id)
 	s.respond(t, unsafe.Pointer(rec.p), unsafe.Pointer(rec.sh), rec.id*2+recycled)
-	s.forced = t
 }
 
 func (s *sim) handlePut(t *task, p *hooks.Printer) {
@@ -323,8 +324,6 @@ func (s *sim) handlePut(t *task, p *hooks.Printer) {
 	} else if rec.state != 0 {
 		s.violate("pool-double-put", t, fmt.Sprintf("printer #%d put while not handed out (state %d)", rec.id, rec.state))
 		// keep it out of the idle list a second time
-		s.respond(t, nil, unsafe.Pointer(rec.sh), rec.id*2)
-		s.forced = t
 		return
 	} else {
 		s.out--
@@ -354,8 +353,7 @@ func (s *sim) handlePut(t *task, p *hooks.Printer) {
 		s.logf("put t%d p%d keep", t.id, rec.id)
 	}
 	s.mix(2, t.id, rec.id)
-	s.respond(t, nil, unsafe.Pointer(rec.sh), rec.id*2+1)
-	s.forced = t
+	s.yields[yAfterPut]++
 }
 
 // run drives all tasks to completion.
@@ -367,6 +365,12 @@ func (s *sim) run() {
 		}
 		if s.prev != t {
 			s.switches++
+		}
+		if t.hasPending {
+			// the pool decision is taken now, against the idle list as it
+			// is at the moment the task actually proceeds
+			s.handleGet(t, t.pendingGet)
+			t.pendingGet, t.hasPending = nil, false
 		}
 		kind, arg, ptr := s.resume(t)
 		s.events++
@@ -380,7 +384,8 @@ func (s *sim) run() {
 			s.logf("yield t%d %s", t.id, yieldNames[arg])
 		case reqGet:
 			s.reqOp = arg
-			s.handleGet(t, (*hooks.Printer)(ptr))
+			t.pendingGet, t.hasPending = (*hooks.Printer)(ptr), true
+			s.yields[yBeforeGet]++
 		case reqPut:
 			s.reqOp = arg
 			s.handlePut(t, (*hooks.Printer)(ptr))
@@ -418,7 +423,8 @@ func poolGetHook(fresh *hooks.Printer) *hooks.Printer {
 		return fresh
 	}
 	e := t.env
-	t.yield(yBeforeGet)
+	// one request: a yield point (others may run now), then the pool
+	// decision, taken when this task is resumed
 	t.call(reqGet, e.opIdx, unsafe.Pointer(fresh))
 	pp, rp, ri := t.response()
 	p := (*hooks.Printer)(pp)
@@ -433,7 +439,7 @@ func poolGetHook(fresh *hooks.Printer) *hooks.Printer {
 		e.noteHistory(-1)
 	}
 	e.holding++
-	t.yield(yAfterGet)
+	e.shOf[p] = sh
 	return p
 }
 
@@ -446,23 +452,21 @@ func poolPutHook(p *hooks.Printer) bool {
 	e := t.env
 	st := hooks.State(p)
 	e.notePutState(&st)
-	poisoned := 0
 	if !t.sim.plan.Cfg.NoPoison {
-		poisoned = hooks.PoisonSpare(p, 0xA5)
-		e.stats.PoisonedBytes += poisoned
+		e.stats.PoisonedBytes += hooks.PoisonSpare(p, 0xA5)
 	}
-	fp := fingerprint(p)
-	t.call(reqPut, e.opIdx, unsafe.Pointer(p))
-	_, rp, ri := t.response()
-	sh := (*pshared)(rp)
-	if ri&1 != 0 {
-		sh.fpAtPut = fp
+	// publish, then hand the printer to the pool: Put(x) synchronises
+	// before the Get that returns x
+	if sh := e.shOf[p]; sh != nil {
+		delete(e.shOf, p)
+		sh.fpAtPut = fingerprint(p)
 		sh.lastClass = e.curClass + 1
 		sh.puts++
 		atomic.StoreUint32(&sh.sync, uint32(sh.puts)) // release
 	}
 	e.holding--
-	t.yield(yAfterPut)
+	// one request: the put, which is also a yield point
+	t.call(reqPut, e.opIdx, unsafe.Pointer(p))
 	return true
 }
 
